@@ -33,6 +33,7 @@ import (
 	"encoding/json"
 	"errors"
 	"fmt"
+	"net/url"
 	"sort"
 	"strings"
 	"sync"
@@ -761,9 +762,27 @@ func (r *c16Run) c16Write(s *apih.Server, c c16Case, ts []*ketoapi.RelationTuple
 	switch c.Transport {
 	case "rest-put":
 		for _, t := range ts {
-			if resp := cl.Create(t); resp.Status != 201 {
+			resp := cl.Create(t)
+			if resp.Status != 201 {
 				r.bad(c, "e2e:write:"+c.Transport, "PUT %s: %s", c16Clip(string(refsem.Key(t))), resp.String())
 				return false
+			}
+			// the Location header of the answer names the relationship just written: its query part must decode
+			// back to exactly that relationship (it is a URL-query encoding made by the server, not by ketoapi)
+			if loc := resp.Header.Get("Location"); loc != "" {
+				bad := ""
+				if u, err := url.Parse(loc); err != nil {
+					bad = "unparsable: " + err.Error()
+				} else if vals, err := url.ParseQuery(u.RawQuery); err != nil {
+					bad = "query unparsable: " + err.Error()
+				} else if back, err := (&ketoapi.RelationTuple{}).FromURLQuery(vals); err != nil {
+					bad = "does not decode: " + err.Error()
+				} else if refsem.Key(back) != refsem.Key(t) {
+					bad = "decodes to " + c16Clip(string(refsem.Key(back)))
+				}
+				if bad != "" {
+					r.bad(c, "e2e:location-header", "PUT %s answers Location %s, which %s", c16Clip(string(refsem.Key(t))), c16Clip(loc), bad)
+				}
 			}
 		}
 	case "rest-patch":
